@@ -206,7 +206,9 @@ class Application(object):
                 ctx.fire_event('method_redirect_exception')
 
         except Fault as e:
-            if e.faultcode == 'Client' or e.faultcode.startswith('Client.'):
+            if e.faultcode == 'Client' or (
+                             isinstance(e.faultcode, six.string_types)
+                                     and e.faultcode.startswith('Client.')):
                 logger_client.exception(e)
             else:
                 logger.exception(e)
